@@ -68,7 +68,6 @@ SPEC_MUTANTS = {
     "C12": [("upper-case encoder", "HexChar(n) == IF n < 10 THEN 48 + n ELSE 87 + n", "HexChar(n) == IF n < 10 THEN 48 + n ELSE 55 + n", "InvStr", ["str"]),
             ("sender-side items start one argument early", "first == IF atSender THEN 3 ELSE 2 IN", "first == IF atSender THEN 2 ELSE 2 IN", "InvXf", ["xf"]),
             ("odd-length hex accepted", "HexOK(t) == Len(t) % 2 = 0 /\\", "HexOK(t) ==", "InvStr", ["str"]),
-            ("SetLast appends instead of replacing", "ELSE [st EXCEPT !.es[Len(st.es)] = o.s]", "ELSE [st EXCEPT !.es = Append(@, o.s)]", "InvBld", ["bld"]),
             ("storage updates keep the leading separator", "TrimLeadingAt(s) == IF Len(s) > 0 /\\ s[1] = AT THEN SubSeq(s, 2, Len(s)) ELSE s", "TrimLeadingAt(s) == s", "InvArgs", ["args"])],
     "C14": [("zero amount as one byte", "ELSE IF a.mag = <<>> THEN <<0, 0>>", "ELSE IF a.mag = <<>> THEN <<0>>", "InvAmt", ["amt"]),
             ("empty repeated element dropped", "RepField(f, bs) == Cat([i \\in 1..Len(bs) |-> LenField(f, bs[i])])", "RepField(f, bs) == Cat([i \\in 1..Len(bs) |-> BytesField(f, bs[i])])", "InvRoles", ["roles"]),
